@@ -189,7 +189,11 @@ func (r *FeatureLocal) addPendingApproval(msg *api.Message) {
 
 	ski := msg.DeviceRemote.Ski()
 
-	newTimer := time.AfterFunc(r.writeTimeout, func() {
+	r.muxResponseCB.Lock()
+	writeTimeout := r.writeTimeout
+	r.muxResponseCB.Unlock()
+
+	newTimer := time.AfterFunc(writeTimeout, func() {
 		verifApprovalTimer(0, ski, *msg.RequestHeader.MsgCounter)
 		defer verifApprovalTimer(1, ski, *msg.RequestHeader.MsgCounter)
 		r.muxResponseCB.Lock()
@@ -272,6 +276,9 @@ func (r *FeatureLocal) ApproveOrDenyWrite(msg *api.Message, err model.ErrorType)
 }
 
 func (r *FeatureLocal) SetWriteApprovalTimeout(duration time.Duration) {
+	r.muxResponseCB.Lock()
+	defer r.muxResponseCB.Unlock()
+
 	r.writeTimeout = duration
 }
 
